@@ -19,6 +19,7 @@ var (
 	reDigits = regexp.MustCompile(`[0-9]+`)
 	reHex    = regexp.MustCompile(`0x[0-9a-fA-F]+`)
 	reQuoted = regexp.MustCompile(`"[^"]*"`)
+	reQName  = regexp.MustCompile(`[A-Za-z_][A-Za-z0-9_]*(\.[A-Za-z_][A-Za-z0-9_]*)+`)
 )
 
 // NormMsg normalises a panic / error message into a class: digits, addresses
@@ -26,6 +27,7 @@ var (
 func NormMsg(s string) string {
 	s = reHex.ReplaceAllString(s, "X")
 	s = reQuoted.ReplaceAllString(s, "Q")
+	s = reQName.ReplaceAllString(s, "ID")
 	s = reDigits.ReplaceAllString(s, "N")
 	f := strings.Fields(s)
 	if len(f) > 8 {
